@@ -1637,7 +1637,8 @@ def _t_eval(target, _t, scope):
             # handle the rest of the t_path in recursive calls
             cur = []
             todo = TType()
-            todo.__ops__ = (root,) + t_path[i+2:]
+            # (each child is the target of the remaining steps, also when the path started in the scope)
+            todo.__ops__ = (T if root is S else root,) + t_path[i+2:]
             for child in nxt:
                 try:
                     cur.append(_t_eval(child, todo, scope))
